@@ -5,6 +5,7 @@ package zzverif
 import (
 	"fmt"
 	"os"
+	"runtime/debug"
 	"testing"
 	"time"
 
@@ -33,6 +34,9 @@ func TestReplay(t *testing.T) {
 				if _, ok := r.(sym.AssumeFailure); ok {
 					done <- "assume-failed"
 					return
+				}
+				if os.Getenv("VERIF_DEBUG") != "" {
+					fmt.Println(string(debug.Stack()))
 				}
 				done <- fmt.Sprintf("panic:%v", r)
 				return
